@@ -17,7 +17,8 @@ T = {
  "C17-r5m2": ("GetExpectedBlockSizeWithoutTransactions takes the size of the tx counter from the receiver's transactions instead of its argument", "proposal with >= 253 transactions estimated on a block without transactions: estimate 2 bytes short", "pkg/core", "TestC17Demo_", "missed", "param-used added after"),
  "C20-r5m1": ("defineSyncStage derives the billet's record layout from KeepOnlyLatestState alone", "RemoveUntraceableBlocks without KeepOnlyLatestState: restored records lack the counter suffix the state-root module expects", "pkg/core/statesync", "TestC20Demo_LightGCNodeWithoutKeepOnlyLatestState", "missed", "record-layout-agreement added after"),
  "C20-r5m2": ("addHeaders compares the trusted header hash before the known headers are cut from the batch", "batch overlapping the known headers whose first new header is the trusted one: a forged header passes", "pkg/core/statesync", "TestC20Demo_ForgedTrustedHeaderInOverlappingBatch", "missed", "trusted-header-checked added after"),
- "C19-r5m1": None, "C19-r5m2": None,
+ "C19-r5m1": ("recoveryMessage.DecodeBinary creates the embedded PrepareRequest without the stateRootEnabled context", "StateRootInHeader on; a delay-only schedule after which recovery is the only way out: every RecoveryMessage carrying a PrepareRequest fails to decode", "pkg/consensus", "TestC19Demo_M1", "DETECTED decode-context", "rule existed before the seed was looked at"),
+ "C19-r5m2": ("updateExtensibleWhitelist asks ShouldUpdateCommitteeAt(height+1): the sender list is rebuilt one block before NEO switches the validators", "candidates registered, >= 20% of NEO voting, validator set changes at an epoch boundary: payloads of the new validators are refused by every pool", "pkg/consensus", "TestC19Demo_M2", "missed", "epoch-mirror added after"),
 }
 if os.path.exists("/verif/tools/seed_meta_r5b_extra.json"):
     T.update({k: tuple(v) for k, v in json.load(open("/verif/tools/seed_meta_r5b_extra.json")).items()})
